@@ -103,6 +103,12 @@ namespace rkcommon {
       if (m == AUTO)
         m = tasking::numTaskingThreads() > 4 ? TASK : THREAD;
 
+      // a loop launched as a task occupies a tasking thread for as long as it
+      // lives: with the serial back end, or a tasking system of one thread,
+      // schedule() runs it in the calling thread and would never return
+      if (m == TASK && tasking::numTaskingThreads() < 2)
+        m = THREAD;
+
       if (m == THREAD)
         backgroundThread = std::thread(mainLoop);
       else  // m == TASK
